@@ -153,7 +153,7 @@ def gen_case(rng, force=None):
             owners[b] = {"model": rng.randrange(len(models)), "dtype": dt,
                          "mode": rng.choice(["const", "const", "step", "step", "step"]),
                          "big": (b == "image" and dt == "uint64" and (force.get("big") or rng.random() < 0.5)),
-                         "clusters": b == "charge" and (bool(force.get("clusters")) or rng.random() < 0.5)}
+                         "clusters": b == "charge" and (bool(force.get("clusters")) or rng.random() < 0.3)}
     if force.get("clusters") and len(models) > 1:
         owners["charge"]["model"] = rng.randrange(len(models) - 1)  # leave room for a model that modifies the clusters
     plan = []  # per step: per model: ops
@@ -221,7 +221,7 @@ def gen_case(rng, force=None):
                 step_ops[mi].append(["data", rng.choice(["alpha", "beta"]) + (str(i) if rng.random() < 0.5 else ""), [rng.randrange(0, 99) for _ in range(3)]])
         plan.append(step_ops)
     return {
-        "rows": rows, "cols": cols, "detector": rng.choice(["CCD", "CMOS"]), "times": times, "start": start, "nd": nd,
+        "rows": rows, "cols": cols, "detector": rng.choice(["CCD", "CMOS", "MKID"]), "times": times, "start": start, "nd": nd,
         "models": models, "plan": plan, "debug_layout_tree": rng.random() < 0.5,
         "second_run": rng.random() < 0.25,
     }
@@ -504,6 +504,11 @@ def property_predicate(case, impl):
     if strip(flat["result"]) != strip(tree["result"]):
         return ("C03:layouts", "flat and hierarchical layouts carry different values")
     if strip(dbg["result"]) != strip(flat["result"]) or dbg["snaps"] != flat["snaps"]:
+        if any(op[0] == "cl_remove_all" for so in case["plan"] for ops in so for op in ops):
+            bad = [b for b in BUCKETS if strip(dbg["result"])["vars"][b] != strip(flat["result"])["vars"][b]]
+            return ("C03:debug-alters:charge-after-removing-all-clusters",
+                    f"a model removed every charge cluster; without debug the result's {bad} hold no charge from them, with debug=True "
+                    "they still hold the removed clusters' charge (the debug snapshot read `Charge.array`, which stores the conversion)")
         return ("C03:debug-alters", "the buckets of the debug run differ from those of the run without debug")
     # debug records: one node per executed writer, holding exactly the buckets this model changed
     inter = dbg["intermediate"]
@@ -642,7 +647,7 @@ def body(ck: common.Check):
             cases.append(("last-history", gen_last_history(rng, kind)))
     for _ in range(4 * k):
         cases.append(("scene-clash", gen_scene_clash(rng)))
-    for _ in range(14 * k):
+    for _ in range(8 * k):
         cases.append(("charge-clusters", gen_case(rng, {"clusters": True, "nsteps": rng.choice([1, 2, 3])})))
     for _ in range(10 * k):
         cases.append(("wavelength-grids", gen_case(rng, {"photon3d": True, "wl_shift": True, "nsteps": rng.choice([2, 3, 4])})))
